@@ -110,6 +110,25 @@ pub fn params(rec: &mut Rec, nmax: usize, dmax: usize) {
                         }
                     }
                 }
+                // independent trapdoors: no two variables share beta_i, no two monomials share a key
+                // element, h / gamma_g / g are not the identity
+                for i in 0..nv {
+                    for j in (i + 1)..nv {
+                        if pp.beta_h[i] == pp.beta_h[j] {
+                            pairs_ok = false;
+                            bad = format!("variables {} and {} share one trapdoor (beta_h equal)", i, j);
+                        }
+                    }
+                }
+                let elems: Vec<(&Vec<usize>, G1)> = want.iter().filter_map(|m| get(m).map(|g| (m, g))).collect();
+                for a in 0..elems.len() {
+                    for b in (a + 1)..elems.len() {
+                        if elems[a].1 == elems[b].1 {
+                            pairs_ok = false;
+                            bad = format!("monomials {:?} and {:?} have the same key element", elems[a].0, elems[b].0);
+                        }
+                    }
+                }
                 let ph: <E381 as Pairing>::G2Prepared = pp.h.into();
                 if pp.prepared_h != ph || pp.prepared_beta_h.len() != nv || (0..nv).any(|i| pp.prepared_beta_h[i] != <E381 as Pairing>::G2Prepared::from(pp.beta_h[i])) {
                     pairs_ok = false;
